@@ -17,7 +17,8 @@ from pathlib import Path
 from vt import tasks_c22 as T
 
 CODE = "import sys,json;print(json.dumps(sys.argv[1:]))"
-ECHO = [sys.executable, "-c", CODE]
+# -I -S: isolated, no site import (the venv's .pth hooks triple the start-up time); argv handling is unaffected
+ECHO = [sys.executable, "-I", "-S", "-c", CODE]
 ALPHABET = ["a", " ", "\t", "'", '"', "\\", "$", "*", ";", "é", "\n"]
 REAL_PLACEMENTS = ["pos", "tmpl", "list-blank", "list-comma", "file"]
 SEAM_PLACEMENTS = ["multi-rep", "path"]
@@ -140,7 +141,7 @@ def built_strings(pl, value):
     if pl in ("pos", "file", "path"):
         return [" " + str(value)]
     if pl == "tmpl":
-        return ["-t " + value]
+        return [("-t " + value).strip()]  # a templated argstr is stripped after formatting
     if pl == "list-blank":
         return [" " + " ".join(value)]
     if pl == "list-comma":
